@@ -150,9 +150,14 @@ def w_contract(c: dict, vm: C.VarMap) -> dict:
 
 
 def contract_close(impl_c: dict, model_c: dict, vm: C.VarMap) -> bool:
-    if vm.vars(impl_c["ins"]) != [int(x) for x in model_c["ins"]] or vm.vars(impl_c["outs"]) != [int(x) for x in model_c["outs"]]:
+    try:
+        if vm.vars(impl_c["ins"]) != [int(x) for x in model_c["ins"]] or vm.vars(impl_c["outs"]) != [int(x) for x in model_c["outs"]]:
+            return False
+        return C.tls_close(G.w_tl(impl_c["a"], vm), model_c["a"]) and C.tls_close(G.w_tl(impl_c["g"], vm), model_c["g"])
+    except KeyError:
+        # the implementation's result mentions a variable that occurs nowhere in the request (a result handed over from another
+        # call): certainly not the model's result — a disagreement, not a harness error
         return False
-    return C.tls_close(G.w_tl(impl_c["a"], vm), model_c["a"]) and C.tls_close(G.w_tl(impl_c["g"], vm), model_c["g"])
 
 
 def has_residue_term(cj: dict) -> bool:
